@@ -89,6 +89,16 @@ var lowerIDs bool
 // key and pages like the rest.
 var upsertItems bool
 
+// upsertEmptyMask: those upserts carry an update mask that is there and names nothing ("write no field")
+var upsertEmptyMask bool
+
+func upsertMask(field string) resource.WriteOption {
+	if upsertEmptyMask {
+		return resource.WithUpdateMask(&fieldmaskpb.FieldMask{})
+	}
+	return resource.WithUpdatePaths(field)
+}
+
 var upsertable = map[string]bool{"electric.ListModes": true, "vending.ListConsumables": true, "vending.ListInventory": true}
 
 func lowerOpt() []resource.Option {
@@ -145,7 +155,7 @@ var listers = []lister{
 		m := electricpb.NewModel(electricpb.WithModeOption(collOpt(&traits.ElectricMode{}, "title")...))
 		for _, id := range ids {
 			if upsertItems {
-				if _, err := m.UpdateMode(&traits.ElectricMode{Id: id, Title: "t" + id}, resource.WithCreateIfAbsent(), resource.WithUpdatePaths("title")); err != nil {
+				if _, err := m.UpdateMode(&traits.ElectricMode{Id: id, Title: "t" + id}, resource.WithCreateIfAbsent(), upsertMask("title")); err != nil {
 					panic(err)
 				}
 				continue
@@ -246,7 +256,7 @@ var listers = []lister{
 		m := vendingpb.NewModel(vendingpb.WithConsumablesOption(collOpt(&traits.Consumable{}, "title")...))
 		for _, id := range ids {
 			if upsertItems {
-				if _, err := m.UpdateConsumable(&traits.Consumable{Name: id, Title: "t" + id}, resource.WithCreateIfAbsent(), resource.WithUpdatePaths("title")); err != nil {
+				if _, err := m.UpdateConsumable(&traits.Consumable{Name: id, Title: "t" + id}, resource.WithCreateIfAbsent(), upsertMask("title")); err != nil {
 					panic(err)
 				}
 				continue
@@ -274,7 +284,7 @@ var listers = []lister{
 		m := vendingpb.NewModel(vendingpb.WithInventoryOption(collOpt(&traits.Consumable_Stock{}, "last_dispensed")...))
 		for _, id := range ids {
 			if upsertItems {
-				if _, err := m.UpdateStock(&traits.Consumable_Stock{Consumable: id, LastDispensed: &traits.Consumable_Quantity{Amount: 1}}, resource.WithCreateIfAbsent(), resource.WithUpdatePaths("last_dispensed")); err != nil {
+				if _, err := m.UpdateStock(&traits.Consumable_Stock{Consumable: id, LastDispensed: &traits.Consumable_Quantity{Amount: 1}}, resource.WithCreateIfAbsent(), upsertMask("last_dispensed")); err != nil {
 					panic(err)
 				}
 				continue
@@ -334,6 +344,7 @@ type pcase struct {
 	Then       int32  // != 0: every page after the first is requested with this page size instead
 	Lower      bool   // the model's collection lower-cases ids (id interceptor)
 	Upsert     bool   // the items were created by masked upserts
+	EmptyMask  bool   // ... whose update mask names no field
 	Restricted bool   // the model's collection has writable fields configured that leave out the key
 	PT         bool   // the lister's real tokens are base64 of a types.PageToken, and Token does NOT decode as one: it is malformed and must be refused
 }
@@ -362,8 +373,9 @@ func walk(l lister, c pcase, fail func(k, m string), tokens map[string]bool) {
 	useMask = c.Masked
 	lowerIDs = c.Lower
 	upsertItems = c.Upsert
+	upsertEmptyMask = c.EmptyMask
 	restrictW = c.Restricted
-	defer func() { useMask, lowerIDs, upsertItems, restrictW = false, false, false, false }()
+	defer func() { useMask, lowerIDs, upsertItems, restrictW, upsertEmptyMask = false, false, false, false, false }()
 	var list func(int32, string) (page, error)
 	var want []string
 	buildPanic := func() (p any) {
@@ -387,6 +399,9 @@ func walk(l lister, c pcase, fail func(k, m string), tokens map[string]bool) {
 		}
 		if c.Upsert {
 			clause += "(items created by masked upserts)"
+		}
+		if c.EmptyMask {
+			clause += "(with an update mask naming nothing)"
 		}
 		if c.Restricted {
 			clause += "(collection with writable fields that leave out the key)"
@@ -620,6 +635,11 @@ func main() {
 						s.Eval(1)
 						s.Trans(1)
 						walk(l, cu, func(k, m string) { s.Fail(k, m, cu) }, nil)
+						ce := cu
+						ce.EmptyMask = true
+						s.Eval(1)
+						s.Trans(1)
+						walk(l, ce, func(k, m string) { s.Fail(k, m, ce) }, nil)
 					}
 					if restrictable[l.name] && size > 0 && size <= 3 && len(ids) <= 8 {
 						for _, ups := range []bool{false, true} {
